@@ -6,6 +6,7 @@ import Driver.C11
 import Driver.C17
 import Driver.C10
 import Driver.C16
+import Driver.C03
 open Driver
 
 /-- dispatch one request line; returns the output lines -/
@@ -24,6 +25,7 @@ def dispatch (line : String) : IO (List String) := do
   | "c10" :: args => cmdC10 args
   | "c10sel" :: args => cmdC10Sel args
   | "c16" :: args => cmdC16 args
+  | "c03" :: args => cmdC03 args
   | _ => return ["error unknown-command"]
 
 partial def loop (hin : IO.FS.Stream) (hout : IO.FS.Stream) : IO Unit := do
